@@ -131,6 +131,42 @@ class DCDerived:
         self.offset = 0.0
 
 
+@dataclass
+class Params:
+    loc: float
+    scale: float
+
+
+@dataclass
+class DCNested:
+    params: Params
+    x: float
+
+
+class NTNested(NamedTuple):
+    params: Params
+    x: float
+
+
+def nested_record_case(col):
+    """a field that holds another record (nested dataclass instance): get-after-put returns what was put - the same record type with the
+    same contents - and feeding the extracted position back is a no-op; for the dataclass and the named-tuple interface"""
+    bad = None
+    for name, iface, st in (("dataclass", gs.DataclassInterface(lambda s: s.params.loc), DCNested(Params(0.0, 1.0), 3.0)),
+                            ("namedtuple", gs.NamedTupleInterface(lambda s: s.params.loc), NTNested(Params(0.0, 1.0), 3.0))):
+        put = Params(2.5, 0.7)
+        new = iface.update_state({"params": put}, st)
+        got = iface.extract_position(["params"], new)
+        if not (isinstance(got["params"], Params) and got["params"] == put):
+            bad = f"{name}: extract_position after update_state({{'params': Params(2.5, 0.7)}}) returned {got['params']!r} ({type(got['params']).__name__})"
+            break
+        again = iface.update_state(got, new)
+        if not (again == new and float(iface.log_prob(again)) == 2.5 and st.params == Params(0.0, 1.0)):
+            bad = f"{name}: feeding the extracted position back changed the state: {again!r} vs {new!r}"
+            break
+    col.add(None if bad is None else {"sig": "native::interface::nested_record_field", "what": bad, "input": {"state": "record with a field holding a nested dataclass instance"}})
+
+
 class NT(NamedTuple):
     a: float
     b: float
@@ -229,6 +265,26 @@ def same_state_object_case(col):
                              f"expected (30.0, 20.0, {want_lp})", "input": {"same_state_object": True, "key_sets": [["a"], ["b"]]}})
 
 
+def optional_none_case(col):
+    """an OPTIONAL input whose value in the state is None (a legitimate value: 'no offset'): after an earlier call that gave it a value, a call
+    on the ORIGINAL state returns it as None again - with everything derived from it - and the user's model is untouched"""
+    off = lsl.Var(None, name="offset")
+    beta = lsl.param(np.float32(1.0), lsl.Dist(tfd.Normal, loc=0.0, scale=5.0), name="beta")
+    eta = lsl.Var(lsl.Calc(lambda b, o: b * 2.0 if o is None else b * 2.0 + o, beta, off), name="eta")
+    y = lsl.obs(np.array([0.5, 1.5], np.float32), lsl.Dist(tfd.Normal, loc=eta, scale=1.0), name="y")
+    model = lsl.GraphBuilder().add(y).build_model()
+    iface = gs.LieselInterface(model)
+    s0 = model.state
+    iface.update_state({"offset": jnp.float32(10.0)}, s0)
+    r = iface.update_state({"beta": jnp.float32(2.0)}, s0)
+    want_lp = float(tfd.Normal(0.0, 5.0).log_prob(2.0) + np.sum(np.asarray(tfd.Normal(4.0, 1.0).log_prob(np.array([0.5, 1.5], np.float32)))))
+    got_off, got_eta, got_lp = r["offset_value"].value, float(r["eta_value"].value), float(iface.log_prob(r))
+    ok = got_off is None and got_eta == 4.0 and np.isclose(got_lp, want_lp, rtol=1e-5) and model.vars["offset"].value is None and not any(n.outdated for n in model.nodes.values())
+    col.add(None if ok else {"sig": "native::interface::none_valued_entry", "what": f"update_state({{'beta': 2}}, s0) after update_state({{'offset': 10}}, s0): offset = {got_off!r} (s0 holds None), "
+                             f"eta = {got_eta} (expected 4.0), log_prob = {got_lp} (expected {want_lp}); user's model outdated nodes: {[n.name for n in model.nodes.values() if n.outdated]}",
+                             "input": {"state_entry": "offset = None", "calls": [{"offset": 10.0}, {"beta": 2.0}]}})
+
+
 def dataclass_derived_case(col):
     st = DCDerived(1.0, 2.0)
     st.offset, st.total = 0.5, 7.0  # values differing from the constructor-time ones
@@ -247,6 +303,8 @@ def dataclass_derived_case(col):
 def bounded(tier, seed):
     rng = np.random.default_rng(seed)
     col = util.Collector()
+    from rtc.c01 import CORE_RULE, core_native
+    core_native(col, seed)
     try:
         dtype_case(col)
     except Exception as e:
@@ -259,6 +317,14 @@ def bounded(tier, seed):
         param_dependent_bijector_case(col)
     except Exception as e:
         col.add({"sig": f"native::interface::exception::{type(e).__name__}", "what": str(e)[:200], "input": {"scenario": "parameter-dependent default bijector"}})
+    try:
+        optional_none_case(col)
+    except Exception as e:
+        col.add({"sig": "native::interface::none_valued_entry", "what": f"{type(e).__name__}: {str(e)[:200]}", "input": {"state_entry": "offset = None"}})
+    try:
+        nested_record_case(col)
+    except Exception as e:
+        col.add({"sig": "native::interface::nested_record_field", "what": f"{type(e).__name__}: {str(e)[:200]}", "input": {"state": "record with a field holding a nested dataclass instance"}})
     try:
         dataclass_derived_case(col)
     except Exception as e:
@@ -280,7 +346,7 @@ def bounded(tier, seed):
     except Exception as e:
         col.add({"sig": f"native::interface::exception::{type(e).__name__}", "what": str(e)[:200], "input": {"scenario": "ambiguous key"}})
     return {"evaluations": col.evals, "distinct_nontrivial": col.evals,
-            "rule": ("BOUNDED: Liesel model with two parameters, a derived sigma and a LEAF derived node pred (feeds no distribution), user model with auto_update on and off: "
+            "rule": (CORE_RULE + "; " + "BOUNDED: Liesel model with two parameters, a derived sigma and a LEAF derived node pred (feeds no distribution), user model with auto_update on and off: "
                      "update_state eager vs a fresh interface (history independence) vs jax.jit vs jax.vmap vs direct assignment + full update on a new model, non-mutation of the input "
                      f"state and of the user's model, put/get, log_prob; a model built with the deprecated GraphBuilder.transform (calculation directly on a value node) updated through variable-name keys; put/get/non-mutation/log_prob for the dict, dataclass (also with field(init=False) fields holding non-default values) and named-tuple interfaces. seed={seed}"),
             "samples": [{"auto_update_of_user_model": False}], "exhaustive": False, "violations": col.violations}
